@@ -1054,8 +1054,8 @@ def rule_r8(prog, res) -> None:
                 if not any(isinstance(c, ast.Call) and isinstance(c.func, ast.Attribute) and c.func.attr in ("appendleft", "append", "insert", "extendleft") and any(isinstance(y, ast.Name) and y.id == nm for a in c.args for y in ast.walk(a)) for c in ast.walk(m.node)):
                     n += 1
                     res.violation("C18.R8", m, x, f"{ci.name}: the remainder `{unparse(x)[:50]}` of an over-full buffer is never pushed back: what does not fit the chunk is lost", key_extra=f"remainder-never-pushed-{m.name}")
-    if n < 3:
-        raise AnalysisError(f"C18.R8: only {n} consuming reads / remainders found in the readers, minimum 3")
+    if n < 2:
+        raise AnalysisError(f"C18.R8: only {n} consuming reads / remainders found in the readers, minimum 2")
 
 
 RULES = [
